@@ -333,7 +333,7 @@ def programs(ctx):
         ctx.obligations['exhaustive'] = True
         n_random = 8000
     for _ in range(n_random):
-        out.append((G.gen_program(rng), 'random'))
+        out.append((G.gen_program(rng, allow=('lambda', 'comp', 'assign', 'dflt')), 'random'))
     out += [(p, 'witness') for p in WITNESSES]
     return out
 
